@@ -81,7 +81,7 @@ def lookupPat (pi : Nat) (name : Str) : Option Re :=
   | none => none
 
 def showRule (reg : Registry Re) (r : Rule) : String :=
-  match ruleValid accRe reg ffName r with
+  match ruleValid accReFast reg ffName r with
   | none => "-"
   | some (.ok b) => b01 b
   | some (.error _) => "E"
@@ -90,15 +90,15 @@ def handle (line : String) : String :=
   match words line with
   | ["acc", pi, n, v] => match pi.toNat?, decCps n, decCps v with
       | some pi, some n, some v => match lookupPat pi n with
-        | some r => b01 (accepts r v)
+        | some r => b01 (acceptsFast r v)
         | none => "nokey"
       | _, _, _ => "bad-op"
   | ["validate", n, v] => match decCps n, decCps v with
-      | some n, some v => b01 (validate accRe reg0 n v)
+      | some n, some v => b01 (validate accReFast reg0 n v)
       | _, _ => "bad-op"
   | ["vwp", d, ps, n, v] => match decList d, decList ps, decCps n, decCps v with
       | some d, some ps, some n, some v =>
-        match validateWithProfile accRe { reg0 with default := d } n v ps with
+        match validateWithProfile accReFast { reg0 with default := d } n v ps with
         | .ok (a, b, names) => "ok " ++ b01 a ++ " " ++ b01 b ++ " " ++
             (if names.isEmpty then "E" else ",".intercalate (names.map encCps))
         | .error e => showErr e
@@ -106,7 +106,7 @@ def handle (line : String) : String :=
   | ["prop", d, ff, n, v, p] => match decList d, decCps n, decCps v, decCps p with
       | some d, some n, some v, some p =>
         if ff != "0" && ff != "1" then "bad-op" else
-        match propValid accRe { reg0 with default := d } ffName (ff == "1") { name := n, value := v, priority := p } with
+        match propValid accReFast { reg0 with default := d } ffName (ff == "1") { name := n, value := v, priority := p } with
         | .ok b => "ok " ++ b01 b
         | .error e => showErr e
       | _, _, _, _ => "bad-op"
@@ -115,9 +115,9 @@ def handle (line : String) : String :=
         let reg : Registry Re := { reg0 with default := d }
         match parseRules (toks.length + 1) toks [] false with
         | some (rules, _) =>
-          match sheetValid accRe reg ffName rules with
+          match sheetValid accReFast reg ffName rules with
           | .ok b => "ok " ++ b01 b ++ " " ++ (if rules.isEmpty then "E" else ",".intercalate (rules.map (showRule reg)))
-              ++ " " ++ b01 (rulesAllValid accRe reg ffName rules)
+              ++ " " ++ b01 (rulesAllValid accReFast reg ffName rules)
           | .error e => showErr e
         | none => "bad-op"
       | none => "bad-op"
